@@ -197,5 +197,10 @@ CLAIMS['C13'] = {
   'note': _TB + 'Number of lines (0..3) and body lengths are case parameters; bodies range over letters (token skipping, string literals, REM inside lines not exercised); LIST text, tokenisation, RENUM targets (C14), MERGE/LOAD (C15) are outside this check.',
 }
 
+CLAIMS['C10'] = {
+  'text': 'Per-operation proof on the real StringSpace.store/_delete_last/collect_garbage/fix_temporaries/reset_temporaries/is_permanent and DataSegment._collect_garbage/check_free/_get_free/hold_garbage/get_stack with the real Scalars and Arrays: after a collection every live scalar, array element, stack temporary and program-literal string reads back the same bytes (contents symbolic), string space holds exactly the live strings packed below the stack, the allocation pointer and FRE equal memory - stack - program - variables - arrays - live string bytes, a second collection moves nothing; check_free raises exactly when the free space after a collection is not more than the request (request size symbolic) and collects only when needed; store adds one string below all others and moves nothing else; temporaries stay temporary and permanents permanent across a collection and is_permanent never fails; hold_garbage/get_stack restore their state also when the body raises. Two defects found by these contracts were repaired in /repo.',
+  'note': _TB + 'Memory layouts (allocation order, lengths, live/garbage/temporary/literal/array) are case parameters (12 layouts); operation histories are covered only through induction over the per-operation contracts, not explored as sequences; FIELD strings, ERASE compaction and Out of memory part-way through an assignment are not covered.',
+}
+
 NOT_APPLICABLE = {
 }
